@@ -266,4 +266,264 @@ theorem den_newEntries (A : List Nat) (n : Nat) (nb jv : List Nat) (v : Nat) (fa
       = (List.range' k0 cnt).flatMap (fun k => den (crossSel (SelG A (listOf n (jvAsg nb jv v k)) factors))) := by
   simp only [newEntries, den, List.map_flatMap, List.map_map, Function.comp_def]
 
+/-! ## the rule vectors: `lower_bound` lookup after `lower_bound` merge -/
+
+theorem gLookup_gMergeRule (id : Nat) (f : MFactor) (j : Nat) : ∀ (rs : List (Nat × MFactor)),
+    gLookup j (gMergeRule mcb id f rs)
+      = if j = id then some (match gLookup j rs with | some o => mCrossSumF o f | none => f) else gLookup j rs
+  | [] => by
+    simp only [gMergeRule, gLookup]
+    by_cases h1 : id < j
+    · have : j ≠ id := by omega
+      simp [h1, this]
+    · by_cases h2 : id = j
+      · simp [h2]
+      · have : j ≠ id := fun e => h2 e.symm
+        simp [h1, h2, this]
+  | r :: rs => by
+    simp only [gMergeRule]
+    by_cases c1 : r.1 < id
+    · simp only [c1, if_true, gLookup]
+      by_cases h1 : r.1 < j
+      · simp only [h1, if_true]; exact gLookup_gMergeRule id f j rs
+      · by_cases h2 : r.1 = j
+        · have : j ≠ id := by omega
+          simp [h2, this]
+        · have : j ≠ id := by omega
+          simp [h1, h2, this]
+    · by_cases c2 : r.1 = id
+      · have c2' : (r.1 == id) = true := by simpa using c2
+        simp only [c1, if_false, c2', if_true, gLookup]
+        by_cases h1 : r.1 < j
+        · have : j ≠ id := by omega
+          simp [h1, this]
+        · by_cases h2 : r.1 = j
+          · have : j = id := by omega
+            simp [h2, this, mcb, moveCBWith]
+          · have : j ≠ id := by omega
+            simp [h1, h2, this]
+      · have c2' : (r.1 == id) = false := by simpa using c2
+        simp only [c1, if_false, c2', Bool.false_eq_true, gLookup]
+        by_cases g1 : id < j
+        · have : j ≠ id := by omega
+          simp [g1, this]
+        · by_cases g2 : id = j
+          · have hj : ¬ r.1 < j := by omega
+            have hj2 : ¬ r.1 = j := by omega
+            simp [g2, hj, hj2]
+          · have : j ≠ id := fun e => g2 e.symm
+            have hj : ¬ r.1 < j := by omega
+            have hj2 : ¬ r.1 = j := by omega
+            simp [g1, g2, this, hj, hj2]
+
+theorem gLookup_mem (j : Nat) : ∀ (rs : List (Nat × MFactor)) (f : MFactor), gLookup j rs = some f → ∃ i, (i, f) ∈ rs
+  | [], f, h => by simp [gLookup] at h
+  | r :: rs, f, h => by
+    simp only [gLookup] at h
+    split at h
+    · obtain ⟨i, hi⟩ := gLookup_mem j rs f h
+      exact ⟨i, List.mem_cons_of_mem _ hi⟩
+    · split at h
+      · injection h with h; exact ⟨r.1, by rw [← h]; exact List.mem_cons_self ..⟩
+      · simp at h
+
+/-- every stored factor is non-empty with vectors of `n` objectives -/
+def GoodG (n : Nat) (G : List (GNode MFactor)) : Prop := ∀ nd ∈ G, ∀ r ∈ nd.rules, GoodF n r.2
+
+theorem good_SelG (n : Nat) (A a : List Nat) (G : List (GNode MFactor)) (hG : GoodG n G) : ∀ f ∈ SelG A a G, GoodF n f := by
+  intro f hf
+  simp only [SelG, List.mem_filterMap] at hf
+  obtain ⟨nd, hnd, hl⟩ := hf
+  obtain ⟨i, hi⟩ := gLookup_mem _ _ _ hl
+  exact hG nd hnd (i, f) hi
+
+theorem mem_gMergeRule (id : Nat) (f : MFactor) : ∀ (rs : List (Nat × MFactor)) (r : Nat × MFactor),
+    r ∈ gMergeRule mcb id f rs → r ∈ rs ∨ r.2 = f ∨ ∃ o, (∃ i, (i, o) ∈ rs) ∧ r.2 = mCrossSumF o f
+  | [], r, h => by simp [gMergeRule] at h; exact Or.inr (Or.inl (by rw [h]))
+  | x :: rs, r, h => by
+    simp only [gMergeRule] at h
+    split at h
+    · rcases List.mem_cons.mp h with h | h
+      · exact Or.inl (by rw [h]; exact List.mem_cons_self ..)
+      · rcases mem_gMergeRule id f rs r h with h | h | ⟨o, ⟨i, hi⟩, ho⟩
+        · exact Or.inl (List.mem_cons_of_mem _ h)
+        · exact Or.inr (Or.inl h)
+        · exact Or.inr (Or.inr ⟨o, ⟨i, List.mem_cons_of_mem _ hi⟩, ho⟩)
+    · split at h
+      · rcases List.mem_cons.mp h with h | h
+        · exact Or.inr (Or.inr ⟨x.2, ⟨x.1, List.mem_cons_self ..⟩, by rw [h]; rfl⟩)
+        · exact Or.inl (List.mem_cons_of_mem _ h)
+      · rcases List.mem_cons.mp h with h | h
+        · exact Or.inr (Or.inl (by rw [h]))
+        · exact Or.inl h
+
+theorem good_gAddToNode (n : Nat) (nb : List Nat) (id : Nat) (f : MFactor) (hf : GoodF n f) : ∀ (G : List (GNode MFactor)),
+    GoodG n G → GoodG n (gAddToNode mcb nb id f G)
+  | [], _ => by
+    intro nd hnd r hr
+    simp only [gAddToNode, List.mem_singleton] at hnd
+    subst hnd
+    simp only [List.mem_singleton] at hr
+    subst hr; exact hf
+  | x :: G, hG => by
+    intro nd hnd r hr
+    simp only [gAddToNode] at hnd
+    split at hnd
+    · rcases List.mem_cons.mp hnd with h | h
+      · subst h
+        rcases mem_gMergeRule id f x.rules r hr with h | h | ⟨o, ⟨i, hi⟩, ho⟩
+        · exact hG x (List.mem_cons_self ..) r h
+        · rw [h]; exact hf
+        · rw [ho]; exact good_cross n o f (hG x (List.mem_cons_self ..) (i, o) hi) hf
+      · exact hG nd (List.mem_cons_of_mem _ h) r hr
+    · rcases List.mem_cons.mp hnd with h | h
+      · subst h; exact hG nd (List.mem_cons_self ..) r hr
+      · exact good_gAddToNode n nb id f hf G (fun nd' h' => hG nd' (List.mem_cons_of_mem _ h')) nd h r hr
+
+/-! ## sums are insensitive to the order of the factors -/
+
+theorem mem_sums_congr_right (w : Vec) (H T T' : List (List Vec)) (h : ∀ u, u ∈ sums T ↔ u ∈ sums T') :
+    w ∈ sums (H ++ T) ↔ w ∈ sums (H ++ T') := by
+  rw [mem_sums_comm w H T, mem_sums_comm w H T']
+  exact mem_sums_congr_left w T T' H h
+
+theorem mem_sums_swap (w : Vec) (H K T : List (List Vec)) : w ∈ sums (H ++ (K ++ T)) ↔ w ∈ sums (K ++ (H ++ T)) := by
+  rw [← List.append_assoc, ← List.append_assoc]
+  exact mem_sums_congr_left w (H ++ K) (K ++ H) T (fun u => mem_sums_comm u H K)
+
+/-- **adding a rule to the neighbours' node** (`mergeFactors` on collision): at the joint actions whose neighbour index is
+    `id` one more factor takes part in the sums; elsewhere nothing changes -/
+theorem sums_gAddToNode (n : Nat) (A a nb : List Nat) (id : Nat) (f : MFactor) (hf : GoodF n f) :
+    ∀ (G : List (GNode MFactor)), GoodG n G → ∀ (R : List (List Vec)) (w : Vec),
+      w ∈ sums ((SelG A a (gAddToNode mcb nb id f G)).map den ++ R)
+        ↔ w ∈ sums ((if toIndexPartial nb A a = id then [den f] else []) ++ ((SelG A a G).map den ++ R))
+  | [], _, R, w => by
+    simp only [gAddToNode, SelG, List.filterMap_cons, List.filterMap_nil, gLookup]
+    by_cases e : toIndexPartial nb A a = id
+    · have h1 : ¬ id < toIndexPartial nb A a := by omega
+      simp [e]
+    · by_cases h1 : id < toIndexPartial nb A a
+      · simp [e, h1]
+      · have h2 : ¬ id = toIndexPartial nb A a := fun h => e h.symm
+        simp [e, h1, h2]
+  | x :: G, hG, R, w => by
+    have hGt : GoodG n G := fun nd' h' => hG nd' (List.mem_cons_of_mem _ h')
+    simp only [gAddToNode]
+    by_cases hk : x.keys = nb
+    · subst hk
+      simp only [beq_self_eq_true, if_true, SelG, List.filterMap_cons, gLookup_gMergeRule]
+      by_cases e : toIndexPartial x.keys A a = id
+      · simp only [e, if_true]
+        cases ho : gLookup id x.rules with
+        | none => simp
+        | some o =>
+          obtain ⟨i, hi⟩ := gLookup_mem _ _ _ ho
+          have hgo : GoodF n o := hG x (List.mem_cons_self ..) (i, o) hi
+          simp only [List.map_cons, List.cons_append, List.nil_append]
+          rw [mem_sums_merge n o f hgo hf]
+          have := mem_sums_swap w [den o] [den f] (List.map den (List.filterMap (fun nd => gLookup (toIndexPartial nd.keys A a) nd.rules) G) ++ R)
+          simpa using this
+      · simp only [e, if_false, List.nil_append]
+    · have hk' : (x.keys == nb) = false := by simpa using hk
+      simp only [hk', Bool.false_eq_true, if_false, SelG, List.filterMap_cons]
+      have ih := sums_gAddToNode n A a nb id f hf G hGt R
+      cases hx : gLookup (toIndexPartial x.keys A a) x.rules with
+      | none => simpa [SelG] using ih w
+      | some o =>
+        simp only [List.map_cons, List.cons_append]
+        have e1 := mem_sums_congr_right w [den o]
+          ((SelG A a (gAddToNode mcb nb id f G)).map den ++ R)
+          ((if toIndexPartial nb A a = id then [den f] else []) ++ ((SelG A a G).map den ++ R)) ih
+        have e2 := mem_sums_swap w [den o] (if toIndexPartial nb A a = id then [den f] else []) ((SelG A a G).map den ++ R)
+        simp only [SelG, List.singleton_append] at e1 e2
+        rw [e1, e2]
+
+/-! ## the loop over the neighbours' joint values, without the callback state -/
+
+/-- the factor `removeFactor` creates for the joint value with index `j` (tags included) -/
+def NE (A : List Nat) (n : Nat) (nb : List Nat) (v : Nat) (factors : List (GNode MFactor)) (j : Nat) : MFactor :=
+  newEntries A n nb (toFactors (sel nb A) j) v factors 0 (A.getD v 0)
+
+def pLoop (A : List Nat) (n : Nat) (nb : List Nat) (v : Nat) (factors : List (GNode MFactor)) :
+    Nat → Nat → List (GNode MFactor) × List MFactor → List (GNode MFactor) × List MFactor
+  | 0, _, p => p
+  | cnt+1, j, p =>
+    pLoop A n nb v factors cnt (j+1)
+      (if (NE A n nb v factors j).isEmpty then p
+       else if nb.isEmpty then (p.1, p.2 ++ [NE A n nb v factors j])
+       else (gAddToNode mcb nb j (NE A n nb v factors j) p.1, p.2))
+
+theorem gRemoveLoop_pure (A : List Nat) (n : Nat) (nb : List Nat) (v : Nat) (factors : List (GNode MFactor)) :
+    ∀ (cnt j : Nat) (st : GState MFactor MGlob), st.glob.agent = v →
+      ((gRemoveLoop mcb A n nb v factors cnt j st).graph, (gRemoveLoop mcb A n nb v factors cnt j st).finals)
+        = pLoop A n nb v factors cnt j (st.graph, st.finals) ∧
+      (gRemoveLoop mcb A n nb v factors cnt j st).glob.agent = v
+  | 0, _, st, h => ⟨rfl, h⟩
+  | cnt+1, j, st, h => by
+    have hinit : (mcb.initNewFactor st.glob).agent = v := h
+    have hnf0 : (mcb.initNewFactor st.glob).newFactor = [] := rfl
+    obtain ⟨g1, g2⟩ := gOver_move A n nb (toFactors (sel nb A) j) v factors (A.getD v 0) 0 _ hinit
+    rw [hnf0, List.nil_append] at g1
+    simp only [gRemoveLoop, pLoop]
+    have hvalid : mcb.isValidNewFactor (gOverActions mcb A n nb (toFactors (sel nb A) j) v factors (A.getD v 0) 0 (mcb.initNewFactor st.glob))
+        = !(NE A n nb v factors j).isEmpty := by
+      show (!(gOverActions mcb A n nb (toFactors (sel nb A) j) v factors (A.getD v 0) 0 (mcb.initNewFactor st.glob)).newFactor.isEmpty) = _
+      rw [g1]; rfl
+    have hnew : mcb.newFactor (gOverActions mcb A n nb (toFactors (sel nb A) j) v factors (A.getD v 0) 0 (mcb.initNewFactor st.glob))
+        = NE A n nb v factors j := g1
+    rw [hvalid, hnew]
+    by_cases he : (NE A n nb v factors j).isEmpty = true
+    · simp only [he, Bool.not_true, Bool.false_eq_true, if_false, if_true]
+      exact gRemoveLoop_pure A n nb v factors cnt (j+1) _ g2
+    · have he' : (NE A n nb v factors j).isEmpty = false := by simpa using he
+      simp only [he', Bool.not_false, if_true, Bool.false_eq_true, if_false]
+      by_cases hn : nb.isEmpty = true
+      · simp only [hn, if_true]
+        exact gRemoveLoop_pure A n nb v factors cnt (j+1) _ g2
+      · have hn' : nb.isEmpty = false := by simpa using hn
+        simp only [hn', Bool.false_eq_true, if_false]
+        exact gRemoveLoop_pure A n nb v factors cnt (j+1) _ g2
+
+/-- `removeFactor` on (graph, final factors) -/
+def pRemoveVar (A : List Nat) (n v : Nat) (p : List (GNode MFactor) × List MFactor) : List (GNode MFactor) × List MFactor :=
+  let factors := p.1.filter (fun nd => nd.keys.contains v)
+  let nb := nbrs n v (p.1.map (·.keys))
+  let g := if nb.isEmpty || p.1.any (fun nd => nd.keys == nb) then p.1 else p.1 ++ [⟨nb, []⟩]
+  let r := pLoop A n nb v factors (spacePartial nb A) 0 (g, p.2)
+  (r.1.filter (fun nd => !nd.keys.contains v), r.2)
+
+theorem gRemoveVar_pure (A : List Nat) (n v : Nat) (st : GState MFactor MGlob) :
+    ((gRemoveVar mcb A n v st).graph, (gRemoveVar mcb A n v st).finals) = pRemoveVar A n v (st.graph, st.finals) := by
+  simp only [gRemoveVar, pRemoveVar]
+  have := (gRemoveLoop_pure A n (nbrs n v (st.graph.map (·.keys))) v (st.graph.filter (fun nd => nd.keys.contains v))
+    (spacePartial (nbrs n v (st.graph.map (·.keys))) A) 0
+    { st with graph := (if (nbrs n v (st.graph.map (·.keys))).isEmpty || st.graph.any (fun nd => nd.keys == nbrs n v (st.graph.map (·.keys))) then st.graph else st.graph ++ [⟨nbrs n v (st.graph.map (·.keys)), []⟩]),
+              glob := mcb.beginRemoval st.graph (st.graph.filter (fun nd => nd.keys.contains v)) v st.glob } rfl).1
+  have h1 := congrArg Prod.fst this
+  have h2 := congrArg Prod.snd this
+  simp only at h1 h2
+  rw [← h1, ← h2]
+
+def pGLoop (A : List Nat) (n : Nat) : Nat → List Nat → List (GNode MFactor) × List MFactor → List (GNode MFactor) × List MFactor
+  | 0, _, p => p
+  | _, [], p => p
+  | fuel+1, active, p =>
+    let v := bestVar A n active (p.1.map (·.keys))
+    pGLoop A n fuel (active.filter (· != v)) (pRemoveVar A n v p)
+
+theorem gLoop_pure (A : List Nat) (n : Nat) : ∀ (fuel : Nat) (active : List Nat) (st : GState MFactor MGlob),
+    ((gLoop mcb A n fuel active st).graph, (gLoop mcb A n fuel active st).finals) = pGLoop A n fuel active (st.graph, st.finals)
+  | 0, _, _ => rfl
+  | fuel+1, [], _ => rfl
+  | fuel+1, x :: xs, st => by
+    simp only [gLoop, pGLoop]
+    rw [gLoop_pure A n fuel _ (gRemoveVar mcb A n _ st), gRemoveVar_pure]
+
+theorem moveRun_pure (A : List Nat) (rules : List MRuleT) :
+    moveRun A rules = mFinalCross (pGLoop A A.length A.length (List.range A.length) (mInit A rules [], [])).2 := by
+  simp only [moveRun, moveRunWith, gRun]
+  have := congrArg Prod.snd (gLoop_pure A A.length A.length (List.range A.length) ⟨mInit A rules [], [], {}⟩)
+  simp only at this
+  rw [← this]
+
 end AITB.VE
